@@ -279,4 +279,100 @@ theorem MeasL.addInit {xs : A → List ℝ} (h : MeasL xs) (init : List ℝ) :
 
 end params
 
+/-! ## the three generated spline methods are measurable in (parameters, point) -/
+section spline
+variable {A : Type} [MeasurableSpace A]
+
+/-- the bin index both `transform` and `derivative` (on `x_pos`) and `inverse` (on `y_pos`) look up -/
+theorem measurable_binIndex {xs : A → List ℝ} (hx : MeasL xs) {v : A → ℝ} (hv : Measurable v) :
+    Measurable fun a => Jnp.clipInt (Jnp.searchsorted (xs a) (v a) - 1) (0 : ℤ) ((((xs a).length : ℕ) : ℤ) - 2) := by
+  obtain ⟨m, hm⟩ := hx.length
+  simp only [hm]
+  exact measurable_int_comp (fun i => Jnp.clipInt (i - 1) (0 : ℤ) (((m : ℕ) : ℤ) - 2)) (measurable_searchsorted hx hv)
+
+/-- generated `RationalQuadraticSpline.transform`, jointly in the three parameter vectors and the point -/
+theorem measurable_rqs_transform {xs ys ds : A → List ℝ} (hx : MeasL xs) (hy : MeasL ys) (hd : MeasL ds)
+    (iv : ℝ × ℝ) {x : A → ℝ} (hxm : Measurable x) :
+    Measurable fun a => (RationalQuadraticSpline.mk iv (xs a) (ys a) (ds a)).transform (x a) := by
+  have hin := measurable_inBounds hxm (measurable_const (a := iv.1)) (measurable_const (a := iv.2))
+  have hr := measurable_where hin hxm (measurable_const (a := iv.1))
+  have hk := measurable_binIndex hx hr
+  have hk1 := measurable_int_add_const hk 1
+  have xk := measurable_getItem hx hk
+  have xk1 := measurable_getItem hx hk1
+  have yk := measurable_getItem hy hk
+  have yk1 := measurable_getItem hy hk1
+  have dk := measurable_getItem hd hk
+  have dk1 := measurable_getItem hd hk1
+  have xi := (hr.sub xk).div (xk1.sub xk)
+  have sk := (yk1.sub yk).div (xk1.sub xk)
+  have omx := (measurable_const (a := (1 : ℝ))).sub xi
+  have num := (yk1.sub yk).mul ((sk.mul (xi.mul xi)).add ((dk.mul xi).mul omx))
+  have den := sk.add ((((dk1.add dk).sub ((measurable_const (a := (2 : ℝ))).mul sk)).mul xi).mul omx)
+  have y := measurable_clip (yk.add (num.div den)) (measurable_const (a := iv.1)) (measurable_const (a := iv.2))
+  exact measurable_where hin y hxm
+
+/-- generated `RationalQuadraticSpline.inverse` -/
+theorem measurable_rqs_inverse {xs ys ds : A → List ℝ} (hx : MeasL xs) (hy : MeasL ys) (hd : MeasL ds)
+    (iv : ℝ × ℝ) {y : A → ℝ} (hym : Measurable y) :
+    Measurable fun a => (RationalQuadraticSpline.mk iv (xs a) (ys a) (ds a)).inverse (y a) := by
+  have hin := measurable_inBounds hym (measurable_const (a := iv.1)) (measurable_const (a := iv.2))
+  have hr := measurable_where hin hym (measurable_const (a := iv.1))
+  have hk := measurable_binIndex hy hr
+  have hk1 := measurable_int_add_const hk 1
+  have xk := measurable_getItem hx hk
+  have xk1 := measurable_getItem hx hk1
+  have yk := measurable_getItem hy hk
+  have yk1 := measurable_getItem hy hk1
+  have dk := measurable_getItem hd hk
+  have dk1 := measurable_getItem hd hk1
+  have sk := (yk1.sub yk).div (xk1.sub xk)
+  have yds := (hr.sub yk).mul ((dk1.add dk).sub ((measurable_const (a := (2 : ℝ))).mul sk))
+  have ca := ((yk1.sub yk).mul (sk.sub dk)).add yds
+  have cb := ((yk1.sub yk).mul dk).sub yds
+  have cc := sk.neg.mul (hr.sub yk)
+  have hsq : Measurable fun v : ℝ => (Transc.sqrt v : ℝ) := Real.continuous_sqrt.measurable
+  have sq := hsq.comp ((cb.mul cb).sub (((measurable_const (a := (4 : ℝ))).mul ca).mul cc))
+  have xi := ((measurable_const (a := (2 : ℝ))).mul cc).div (cb.neg.sub sq)
+  have x := measurable_clip ((xi.mul (xk1.sub xk)).add xk) (measurable_const (a := iv.1)) (measurable_const (a := iv.2))
+  exact measurable_where hin x hym
+
+/-- generated `RationalQuadraticSpline.derivative` -/
+theorem measurable_rqs_derivative {xs ys ds : A → List ℝ} (hx : MeasL xs) (hy : MeasL ys) (hd : MeasL ds)
+    (iv : ℝ × ℝ) {x : A → ℝ} (hxm : Measurable x) :
+    Measurable fun a => (RationalQuadraticSpline.mk iv (xs a) (ys a) (ds a)).derivative (x a) := by
+  have hin := measurable_inBounds hxm (measurable_const (a := iv.1)) (measurable_const (a := iv.2))
+  have hr := measurable_where hin hxm (measurable_const (a := iv.1))
+  have hk := measurable_binIndex hx hr
+  have hk1 := measurable_int_add_const hk 1
+  have xk := measurable_getItem hx hk
+  have xk1 := measurable_getItem hx hk1
+  have yk := measurable_getItem hy hk
+  have yk1 := measurable_getItem hy hk1
+  have dk := measurable_getItem hd hk
+  have dk1 := measurable_getItem hd hk1
+  have xi := (hr.sub xk).div (xk1.sub xk)
+  have sk := (yk1.sub yk).div (xk1.sub xk)
+  have omx := (measurable_const (a := (1 : ℝ))).sub xi
+  have two := (measurable_const (a := (2 : ℝ)) : Measurable fun _ : A => (2 : ℝ))
+  have num := (sk.mul sk).mul (((dk1.mul (xi.mul xi)).add (((two.mul sk).mul xi).mul omx)).add (dk.mul (omx.mul omx)))
+  have den1 := sk.add ((((dk1.add dk).sub (two.mul sk)).mul xi).mul omx)
+  exact measurable_where hin (num.div (den1.mul den1)) (measurable_const (a := (1 : ℝ)))
+
+/-- the log-det reported by the generated `inverse_and_log_det` -/
+theorem measurable_rqs_invLd {xs ys ds : A → List ℝ} (hx : MeasL xs) (hy : MeasL ys) (hd : MeasL ds)
+    (iv : ℝ × ℝ) {y : A → ℝ} (hym : Measurable y) :
+    Measurable fun a => ((RationalQuadraticSpline.mk iv (xs a) (ys a) (ds a)).inverse_and_log_det (y a)).2 := by
+  have hlog : Measurable fun v : ℝ => (Transc.log v : ℝ) := Real.measurable_log
+  exact (hlog.comp (measurable_rqs_derivative hx hy hd iv (measurable_rqs_inverse hx hy hd iv hym))).neg
+
+/-- … and by `transform_and_log_det` -/
+theorem measurable_rqs_fwdLd {xs ys ds : A → List ℝ} (hx : MeasL xs) (hy : MeasL ys) (hd : MeasL ds)
+    (iv : ℝ × ℝ) {x : A → ℝ} (hxm : Measurable x) :
+    Measurable fun a => ((RationalQuadraticSpline.mk iv (xs a) (ys a) (ds a)).transform_and_log_det (x a)).2 := by
+  have hlog : Measurable fun v : ℝ => (Transc.log v : ℝ) := Real.measurable_log
+  exact hlog.comp (measurable_rqs_derivative hx hy hd iv hxm)
+
+end spline
+
 end NetMass
